@@ -37,7 +37,7 @@ from pexpect.exceptions import EOF, TIMEOUT, ExceptionPexpect
 PROPERTY = 'C10'
 RULE = ('Hypothesis-generated operation sequences (<= 12 steps) x child disposition {normal, ignores HUP+INT, stopped, '
         'stopped+ignoring, already exited, exits mid-sequence} on pty children, and the fd/socket rule subsets on '
-        'fdspawn/SocketSpawn; invariants checked against /proc after every step; decoy socketpairs (pre-loaded with '
+        'fdspawn/SocketSpawn (a quarter of the fdspawn objects own descriptor number 0); invariants checked against /proc after every step; decoy socketpairs (pre-loaded with '
         'sentinel bytes) grab the released descriptor number before I/O is retried.  Non-trivial: >= 3 lifecycle '
         'operations including one after the child died or one after close.  Distinct by hash of the case.')
 ASSUMPTIONS = [
